@@ -43,6 +43,13 @@ def run(S):
     else:
         f6 = twopass.explore(S, max_items=1, constructs=ALL, max_spaces=4)
         f6 += twopass.explore(S, max_items=2, constructs=ALL, gaps=[(), ('sp',), ('blk',)], ws_alts=A3, max_spaces=4, min_items=2)
+    # line comments (they force the broken layout; their line break is part of the following whitespace token)
+    GL = [(), ('sp',), ('lc', 'nlsp'), ('sp', 'lc', 'nlsp')]
+    if S.tier == 'quick':
+        f6 += twopass.explore(S, max_items=1, constructs=('call', 'params'), gaps=GL, ws_alts=A3, max_spaces=2)
+    else:
+        f6 += twopass.explore(S, max_items=1, constructs=ALL, gaps=GL, ws_alts=A3, max_spaces=4)
+        f6 += twopass.explore(S, max_items=2, constructs=('call', 'array'), gaps=GL, ws_alts=[' ', '\n'], max_spaces=3, min_items=2)
     # items that always expand (a code block with two statements) inside a list on a text line
     f6 += twopass.explore(S, max_items=2, constructs=('call', 'array'), gaps=[(), ('sp',)] if S.tier == 'quick' else [(), ('sp',), ('blk',)],
                           ws_alts=[' ', '\n'], max_spaces=3, min_items=1, last_kinds=('cblock2', 'cblock1'))
